@@ -60,6 +60,7 @@ class Ctx:
         self.t0 = time.time()
         self.only_rule: Optional[str] = None
         self.skip_selftest = False
+        self._seen = set()
 
     # -- output -------------------------------------------------------------
     def say(self, msg):
@@ -78,6 +79,9 @@ class Ctx:
     def ok(self, rule, site, what):
         if self.only_rule and not rule.startswith(self.only_rule):
             return
+        if (rule, 'ok', site, what) in self._seen:
+            return
+        self._seen.add((rule, 'ok', site, what))
         self.obligations.append(Obligation(rule, 'ok', site, what))
         self.say(f'OK   {rule} {site} {what}')
 
@@ -90,6 +94,9 @@ class Ctx:
         if self.only_rule and not rule.startswith(self.only_rule):
             return
         full = f'{rule}|{key}'
+        if (rule, 'fail', full, site) in self._seen:
+            return
+        self._seen.add((rule, 'fail', full, site))
         if full in self.known:
             self.obligations.append(Obligation(rule, 'known', site, what, full, diag))
             self.say(f'KNOWN {rule} {site} {what}')
